@@ -7,7 +7,7 @@
 (* ====================================================================== *)
 Require Import Field Ring Arith Lia List Bool Permutation ZArith QArith Qcanon.
 From TK Require Import Mat_Sums Mat_Core Mat_Qc Landmark_Model Landmark_Spec
-                       Landmark_Proof_Trace Landmark_Proof_Euclid Landmark_Proof_Main.
+                       Landmark_Proof_Trace Landmark_Proof_Euclid Landmark_Proof_Main Landmark_Proof_Ratio.
 Import ListNotations.
 Require String.
 Import String.StringSyntax.
@@ -95,6 +95,35 @@ Qed.
 
 (* F21: N = 6, three landmarks, target_dimension = 5 (< N: accepted by the constructor's
    InRange(1, N)) — the model leaves the eigenvector matrix whatever the solver answered *)
+(* ratio = 1: all six samples are landmarks, in a shuffled order *)
+Definition ex_perm : list nat := [3; 1; 5; 0; 2; 4].
+
+Example ratio_one_nonvacuous :
+  Permutation ex_perm (seq 0 6) /\
+  (forall a b, a < 6 -> b < 6 -> ex_dist a b = ex_dist b a) /\
+  exists ws, lmds_embed 6 1 ex_perm ex_dist ex_W ex_w ex_s = LOk ws.
+Proof.
+  split.
+  { cbn [seq]. apply NoDup_Permutation.
+    - repeat constructor; cbn; intuition lia.
+    - repeat constructor; cbn; intuition lia.
+    - intros x. unfold ex_perm. cbn [In]. lia. }
+  split.
+  { intros a b Ha Hb.
+    assert (H : forallb (fun a => forallb (fun b => qeqb (ex_dist a b) (ex_dist b a)) (seq 0 6)) (seq 0 6) = true)
+      by (vm_compute; reflexivity).
+    pose proof (forall_lt_by_compute 6 _ H a Ha) as H1. cbv beta in H1.
+    pose proof (forall_lt_by_compute 6 _ H1 b Hb) as H3. cbv beta in H3.
+    apply qeqb_ok in H3. exact H3. }
+  apply lmds_embed_total; [|cbn; lia]. repeat constructor.
+Qed.
+
+(* Landmark Isomap, dense branch: a 2-landmark, 3-sample instance runs *)
+Example lisomap_runs :
+  exists Y, lisomap_embed 3 2 1 (mof [[qz 0; qz 1; qz 2]; [qz 1; qz 0; qz 1]])
+                          (fun _ _ => qz 1) (fun _ => qz 1) (fun _ => qz 1) = LOk Y.
+Proof. eexists. reflexivity. Qed.
+
 Local Open Scope string_scope.
 Example lmds_bounds_witness :
   lmds_embed 6 5 [0; 1; 2] ex_dist ex_W ex_w ex_s =
